@@ -10,7 +10,7 @@ for prop in C01 C02 C03 C04 C05 C06 C07 C08 C09 C10 C11 C12 C13 C14 C15 C16 C17 
   out=$(python3 /verif/lint/check.py $prop --repo $T --no-evidence 2>&1)
   rc=$?
   if [ $rc -eq 2 ]; then echo "$prop: cannot analyse: $(echo "$out" | tail -3)"; bad=1; break; fi
-  if [ $rc -ne 0 ]; then echo "$prop: $(echo "$out" | grep 'key:' | sed 's/ *key: //' | tr '\n' ';' | cut -c1-600)"; bad=1; fi
+  if [ $rc -ne 0 ]; then echo "$(basename $P) $prop: $(echo "$out" | grep 'key:' | sed 's/ *key: //' | tr '\n' ';' | cut -c1-600)"; bad=1; fi
 done
 rm -rf $T
 [ $bad -eq 0 ] && echo "silent: $(basename $P)"
